@@ -473,6 +473,48 @@ def transport_case(direction, name, profile, data=b"payload\n", mtime=1_600_000_
         shutil.rmtree(base, ignore_errors=True)
 
 
+def remote_writer_death_case(profile):
+    """push in which the REMOTE writer dies mid-file (a file-size limit kills the remote `cat` after 64 KiB): the destination file
+    must keep its complete old bytes (or get the complete new ones) - a truncated file under the destination name is what the
+    `&&` between `cat > tmp` and `mv` exists to prevent"""
+    from . import c04
+    exe = c04.build_copia(profile)
+    base = tempfile.mkdtemp(prefix="copia-verif-rwd-")
+    try:
+        s, d, home, bindir = (os.path.join(base, x) for x in ("src", "dst", "home", "bin"))
+        for x in (s, d, home, bindir):
+            os.makedirs(x)
+        new, old = b"N" * 300_000, b"o" * 100_000
+        open(os.path.join(s, "big.bin"), "wb").write(new)
+        open(os.path.join(d, "big.bin"), "wb").write(old)
+        os.utime(os.path.join(d, "big.bin"), (1_500_000_000, 1_500_000_000))
+        with open(os.path.join(bindir, "ssh"), "w") as f:
+            f.write("#!/bin/bash\nshift\ncase \"$*\" in\n  cat\\ \\>*) ulimit -f 64;;\nesac\nexec bash -c \"$*\"\n")
+        os.chmod(os.path.join(bindir, "ssh"), 0o755)
+        envp = dict(os.environ, PATH=bindir + ":" + os.environ["PATH"], HOME=home)
+        p = subprocess.run([exe, "sync", "-r", s, "fakehost:" + d], stdout=subprocess.PIPE, stderr=subprocess.PIPE, timeout=120, env=envp, cwd=home, text=True)
+        got = open(os.path.join(d, "big.bin"), "rb").read() if os.path.exists(os.path.join(d, "big.bin")) else None
+        state = "old" if got == old else "new" if got == new else "absent" if got is None else "%d bytes that are neither the old (%d) nor the new (%d) file" % (len(got), len(old), len(new))
+        return {"rc": p.returncode, "big.bin": state, "said": (p.stdout + p.stderr)[-200:]}
+    finally:
+        shutil.rmtree(base, ignore_errors=True)
+
+
+def remote_writer_death_witness(R, pid):
+    for prof in ("dev", "release"):
+        r = remote_writer_death_case(prof)
+        why = None
+        if r["big.bin"] not in ("old", "new"):
+            why = "the destination holds %s" % r["big.bin"]
+        elif r["rc"] == 0 and r["big.bin"] != "new":
+            why = "exit 0 although the file was not delivered"
+        if why:
+            case = {"fn": "remote_writer_death", "observed": {prof: r}}
+            return {"confirmed": True, "replay_path": R.save_replay("%s/push/remote-writer-dies" % pid, case), "key": "%s/push/remote-writer-dies" % pid,
+                    "detail": "push whose remote `cat` is killed mid-file (%s): %s (exit %d)" % (prof, why, r["rc"])}
+    return {"confirmed": False, "detail": "a push whose remote writer dies mid-file leaves the old file in place and exits non-zero"}
+
+
 def judge_transport(direction, name, r, data="payload\n", mtime=1_600_000_123):
     if "skipped" in r:
         return None
@@ -495,6 +537,10 @@ def judge_transport(direction, name, r, data="payload\n", mtime=1_600_000_123):
 
 def _witness(R, pid, direction, P, label):
     def w(name, model, neg):
+        if direction == "push":
+            t = remote_writer_death_witness(R, pid)
+            if t["confirmed"]:
+                return t
         names = [n for n in [_name_from_model(model, P)] if n] + HOSTILE
         for prof in ("dev", "release"):
             for nm in names:
@@ -540,6 +586,13 @@ def bash_contract_validation(R, pid):
 
 def native_validation(R, pid, directions=("push", "pull")):
     """the real binary through the stand-in for ssh on the hostile names, and the command lines it gave ssh against the specification"""
+    if "push" in directions:
+        t = remote_writer_death_witness(R, pid)
+        R.validation["cases"] += 2
+        if t["confirmed"]:
+            R.validation["disagreements"] += 1
+            R.add("%s/remote-shell/native" % pid, "violated", confirmed=True, replay_path=t["replay_path"], key=t["key"], detail=t["detail"])
+            return
     def q(s):
         return s.replace("\\", "\\\\").replace("'", "\\'")
     n = 0
@@ -586,6 +639,10 @@ def native_validation(R, pid, directions=("push", "pull")):
 
 
 def replay_case(case):
+    if case.get("fn") == "remote_writer_death":
+        for prof in ("dev", "release"):
+            print(prof, json.dumps(remote_writer_death_case(prof)))
+        return
     if case.get("fn") == "remote_list_newline":
         for prof in ("dev", "release"):
             r = newline_case(case["which"], prof)
